@@ -225,6 +225,20 @@ CHECKS = {
         "runs. Known hash-order dependent findings matched exactly (script, outcome set) from pins/C11.json.",
         "DESIGN.md section 5 C11",
     ),
+    "C12": (
+        "vmc/c12.py (E2 histories with a generic global-state fingerprint, E5 crash points, E3 schedules via vmc/sched.py)",
+        "model_checking",
+        "explicit-state search over run histories with the process-global state fingerprint as canonical state; exhaustive crash-point enumeration; preemption-bounded schedule exploration of two concurrent analyses",
+        "(a) 198 letters = script (11: creates / reads / fails after creating / nested CASE-subquery runner / redefines a known table ...) x provider kind (shared default instance, one "
+        "shared non-empty provider, fresh) x analyzer (ansi, tsql without semicolons, non-validating) x config scope; after every event the fingerprint of everything reachable from the "
+        "sqllineage modules must equal the initial one, the reused provider must answer as a fresh one, and the observation must equal that of a fresh interpreter; every depth-2 history "
+        "ending in a probe run on the same provider (thorough: depth 3 on the shared provider). (b) a failing statement of both kinds at every position of 1-4 statement scripts and a provider "
+        "raising on every j-th lookup, followed by probe runs on that provider. (c) 2 threads with their own providers and scopes, every schedule with <= 1 (fine grain: every function entry "
+        "of runner / provider / config, every line of session handling) and <= 2 (coarse grain) preemptions; each thread must observe its solo result and leave its provider clean.",
+        "Trusted: completeness of the fingerprint for the inductive reading of (a) (the depth-2 histories and parts b, c do not rely on it); GIL atomicity below line granularity; no "
+        "preemption inside third-party code.",
+        "DESIGN.md section 5 C12",
+    ),
 }
 
 NOT_YET = "check not built yet in this revision (planned in DESIGN.md section 5/11); not claimed"
